@@ -13,6 +13,12 @@ Definition bind_num (l : list (string * option Q)) (n : string) : option (option
 Definition bind_arr (l : list (string * list obs)) (n : string) : option (list obs) :=
   match find (fun p => String.eqb (fst p) n) l with Some p => Some (snd p) | None => None end.
 
+Definition bind_bool (l : list (string * (nat -> bool))) (n : string) : option (nat -> bool) :=
+  match find (fun p => String.eqb (fst p) n) l with Some p => Some (snd p) | None => None end.
+
+(* a Python bool as a scalar *)
+Definition qbool (b : bool) : option Q := Some (if b then 1 else 0).
+
 Definition bind_str (l : list (string * string)) (n : string) : option string :=
   match find (fun p => String.eqb (fst p) n) l with Some p => Some (snd p) | None => None end.
 
